@@ -659,6 +659,17 @@ pub fn crafted_proof_answer(
     if last.header().calc_header_hash() != req.last_hash() {
         return None;
     }
+    if let Some(real) = sim.peers[p].fake_tip_real {
+        // the honest proof of the real block, presented for its unmined copy
+        let real_req = req.clone().as_builder().last_hash(sim.world.block(real.branch, real.height).hash()).build();
+        if let server::ProofAnswer::Reply(m, _) = server::last_state_proof(&sim.world, real, &real_req) {
+            if !m.headers().is_empty() || !m.proof().is_empty() || real.height <= 1 {
+                let m = m.as_builder().last_header(last).build();
+                return Some((lc_msg(m), crafted(Kind::SendLastStateProof, "honest proof of the real block presented for its unmined copy")));
+            }
+        }
+        return None;
+    }
     let mut rng = Rng::new(mix(&[sim.plan.seed, sim.seq, 0xfa4e]));
     let start: u64 = req.start_number().unpack();
     // a few shapes: headers around the requested start, strictly increasing numbers or not
@@ -1271,6 +1282,35 @@ pub fn mutate(
                 continue;
             }
             _ => {}
+        }
+        if spec.op == 2005 && tag.kind == Kind::SendLastStateProof && sim.world.params.pow == crate::chain::PowKind::Eaglesong {
+            // "my tip has changed": an empty proof naming a new last header - an unmined copy of
+            // the peer's real tip (another nonce; chain root and extra hash untouched). The peer
+            // then proves it like an honest node proves the real block.
+            let view = sim.peers[p].view;
+            let real = sim.world.block(view.branch, view.height);
+            let vh = real.verifiable();
+            let mut nonce: u128 = vh.header().nonce().unpack();
+            let engine = ckb_pow::Pow::Eaglesong.engine();
+            let mut header = vh.header();
+            for _ in 0..64 {
+                nonce = nonce.wrapping_add(1 + rng.next_u64() as u128);
+                header = vh.header().as_builder().nonce(nonce.pack()).build();
+                if !engine.verify(&header) {
+                    break;
+                }
+            }
+            if !engine.verify(&header) {
+                let fake = vh.as_builder().header(header).build();
+                sim.peers[p].fake_tip = Some(fake.clone());
+                sim.peers[p].fake_tip_real = Some(view);
+                let m = packed::SendLastStateProof::new_builder().last_header(fake).build();
+                t.note = "tip changed: empty proof naming an unmined copy of the real tip".into();
+                t.canonical = None;
+                out.push((proto, lc_msg(m).as_bytes(), t));
+                sim.stat("fault.byz.unmined_tip_in_an_empty_proof");
+                continue;
+            }
         }
         if spec.op == 2003 && tag.kind == Kind::BlockFilterCheckPoints {
             if let Some((m1, m2)) = overlong_check_points(sim, data, &mut rng) {
